@@ -25,6 +25,45 @@ LEVELS = {
         "note": _TB + "Modelled: trie/trie.go, repl/completion.go callback result. Not modelled: which words the REPL inserts (object.record).",
         "technique": "Lean 4 proof by structural induction (refinement of the trie to the set of inserted words) + differential correspondence run",
     },
+    "C08": {
+        "text": "Kernel-checked: for EVERY token stream satisfying two stated lexer facts and every fuel the parser model takes no Go-panic branch "
+                "(explicit panic in parseComment, nil-node method call in okParamList, CurrentLine slicing, nil prevToken, nil ByType); a tree without "
+                "missing children whose operator tokens have precedences (generated-table facts, decided) prints without panic in all modes. The model "
+                "(parser + printer, 4 print modes, both lexer modes) is compared with the real code on ~215k (quick) cases per run, all agreeing.",
+        "design_ref": "DESIGN.md section 7, C08",
+        "note": _TB + "Partial: termination within a linear fuel bound and 'no error and no continuation => no missing child' are validated by the "
+                "correspondence run only (C08.Safe is evaluated on every case), not proved. The lexer half (bytes -> token stream, StreamWF) belongs to the "
+                "lexer component; until it is composed, streams come from the real lexer. Found and fixed: parser panic on `(a,*)=>1` (bfcb1a0).",
+        "technique": "Lean 4 proof (Hoare-style invariant over the parser monad, simultaneous induction on fuel over 23 mutually recursive functions; "
+                     "mutual induction over the nested AST for the printer) + differential correspondence run",
+    },
+    "C15": {
+        "text": "Parts 1 and 2 are decided NEGATIVELY with kernel-evaluated witnesses on real-lexer token streams (4 recorded open findings: unclosed string after a "
+                "statement, `/*/`, `()` at end of line, file mode accepting an unclosed block) and otherwise checked by the correspondence run on every "
+                "token-boundary cut of generated programs and the shipped examples (~19k cases quick).",
+        "design_ref": "DESIGN.md section 7, C15",
+        "note": _TB + "Part 3 (chunked evaluation) is not covered here: it belongs to the evaluator/session component. The simulation proof of part 1 "
+                "outside the recorded class is not done; the parser no-panic theorem of C08 applies to both modes.",
+        "technique": "Lean 4 model + decide-checked refutation witnesses + differential correspondence run over all cuts",
+    },
+    "C02": {
+        "text": "The statement is refuted on the unchanged tree by many inputs; 6 local printer defects were repaired (fix: commits f34036e f1ce590 68d7827 2933887 "
+                "1907841 8c8d393) and the model follows the fixed code; 9 remaining defect classes are recorded as open findings, each delimited by a decidable "
+                "predicate on the tree (lean/Grol/Classes.lean) with a replayed witness; kernel-evaluated witnesses for three of them. Every failing case of the "
+                "suite (~24k cases quick, both modes, both lexer modes) must fall in a recorded class.",
+        "design_ref": "DESIGN.md section 7, C02",
+        "note": _TB + "Partial: the round-trip theorem on the complement of the classes (C02.Safe) is NOT proved (needs the lexer model and a Pratt-parser/printer "
+                "round-trip argument); what is proved is totality of parser and printer (C08) and the witnesses.",
+        "technique": "Lean 4 model of parser and printer + decide-checked refutation witnesses + differential correspondence run with known-finding classes",
+    },
+    "C03": {
+        "text": "Fixpoint (both modes), single trailing newline and independence from the interning history are evaluated on every case of the format suite; one "
+                "defect fixed (29c3ce8: block layout depended on a statement of an earlier block); 7 open classes inherited from C02. The model has no hidden state "
+                "(stated as a theorem); idempotence on the safe complement and the trailing-newline lemma are not proved.",
+        "design_ref": "DESIGN.md section 7, C03",
+        "note": _TB + "Partial (see text). Go map iteration order cannot be exhibited by the pure model; the printer uses the Order slice.",
+        "technique": "Lean 4 model + differential correspondence run (two formatting passes, interning reset every 40th case)",
+    },
 }
 
 NOT_APPLICABLE = {}
